@@ -317,6 +317,9 @@ def cli_cases(rng, quick):
                 q = revcomp(q)
             if rng.random() < 0.15:
                 q = rnd(rng, rng.randint(1, 12))
+            if rng.random() < 0.3:
+                # the sequence begins inside the ORF (no 5' flank): the alignment opens with gaps in the sequence
+                q = body[rng.choice([1, 2, 4, 5, 7, 8]):] + rnd(rng, rng.randint(0, 9))
             if rng.random() < 0.2:
                 q = q.lower() if rng.random() < 0.5 else q.replace("T", "U")
             seqs.append(("q%d" % i, q))
